@@ -18,3 +18,4 @@ def run(ck):
     alloc.r10_cleanup_count_is_fresh(ck, P)
     alloc.r11_broken_operand_not_dropped(ck, P)
     alloc.r12_region_storage_released_before_overwrite(ck, P, 'C15-R12')
+    alloc.r13_allocation_size_in_wide_type(ck, P)
